@@ -9,3 +9,15 @@ open FormulaeModel
 #print axioms C17.C17_hstack_widths
 #print axioms C17.C17_stack_slices
 #print axioms C17.C17_stack_rows
+#print axioms C17.C17_trainComp_rows_partial
+#print axioms C17.C17_trainTerm_rows_partial
+#print axioms C17.C17_trainGroup_rows_partial
+#print axioms C17.C17_newTerm_shape_partial
+#print axioms C17.C17_newGroup_shape_partial
+#print axioms C17.C17_design_rows_partial
+#print axioms C17.C17_design_common_partial
+#print axioms C17.C17_design_group_partial
+#print axioms C17.C17_design_new_blocks_partial
+#print axioms C17.C17_trainComp_rows_counterexample
+#print axioms C17.C17_design_rows_counterexample
+#print axioms C17.C17_trainTerm_rows_counterexample_empty
